@@ -41,7 +41,7 @@ Proof.
   pose proof (home_same _ _ Hs) as Hh.
   destruct Hs as (H1 & H2 & H3 & H4 & H5 & H6 & H7 & H8 & H9 & H10 & H11 & H12 & H13 & H14 & H15 & H16 & H17 & H18).
   destruct Hi as [Aheap Amem1 Amem2 Aown Afresh Atag Adead Ainner Aitag Ainj Aiown Agin Apres Adev Abuf Acur Acurinj
-                  Ahand Avars Avinj AT ATnd Alive Alognd Alog AD].
+                  Ahand Avars Avinj AT ATnd Alive Alognd Alog AD Acs].
   constructor; rewrite ?H1, ?H2, ?H3, ?H4, ?H5, ?H6, ?H7, ?H8, ?H9, ?H10, ?H11, ?H12, ?H13, ?H14, ?H15, ?H16, ?H17, ?H18.
   - exact Hk.
   - intros e o sl. rewrite Hh. apply M1.
@@ -69,6 +69,7 @@ Proof.
   - exact Alognd.
   - exact Alog.
   - exact AD.
+  - intros d st Ha Ht Hw. apply Acs; try assumption. intros H. apply Hw. now apply HW.
 Qed.
 
 Lemma inv_weaken_X X W D T G s e :
@@ -91,6 +92,7 @@ Proof.
   - intros b Ha Ht Hg Hw. apply (i_inner_own _ _ _ _ _ _ _ Hi b Ha Ht Hg). intros H. apply Hw. now right.
   - intros d Ha Ht Hw. apply (i_cur _ _ _ _ _ _ _ Hi d Ha Ht). intros H. apply Hw. now right.
   - intros x k Ha Ht Hw. apply (i_live _ _ _ _ _ _ _ Hi x k Ha Ht). intros H. apply Hw. now right.
+  - intros d st Ha Ht Hw. apply (i_cur_str _ _ _ _ _ _ _ Hi d st Ha Ht). intros H. apply Hw. now right.
 Qed.
 
 (* members of rings are alive, typed, not exempt *)
@@ -213,16 +215,18 @@ Qed.
 (* ---- writes to a wrapper's pointer while the wrapper is exempt *)
 Lemma inv_set_hptr X W D T G s h v :
   inv X W D T G s -> In h X -> is_h_tag (tagof s h) ->
+  (forall d st, alive s d = true -> tagof s d = TO KDev -> ~ In d W -> ocur s d = h -> v = Some st ->
+                odev s st = Some d) ->
   inv X W D T G (set_hptr s (upd (hptr s) h v)).
 Proof.
-  intros Hi Hx [k Hk].
+  intros Hi Hx [k Hk] Hcs.
   assert (Hhome : forall e, e <> h -> home (set_hptr s (upd (hptr s) h v)) e = home s e).
   { intros e He. unfold home. simpl_st. rewrite upd_other by exact He. reflexivity. }
   assert (Hlt : h < nxt s).
   { destruct (Nat.lt_ge_cases h (nxt s)) as [H|H]; [exact H|].
     destruct (i_fresh _ _ _ _ _ _ _ Hi h H) as (_ & Ht & _). congruence. }
   destruct Hi as [Aheap Amem1 Amem2 Aown Afresh Atag Adead Ainner Aitag Ainj Aiown Agin Apres Adev Abuf Acur Acurinj
-                  Ahand Avars Avinj AT ATnd Alive Alognd Alog AD].
+                  Ahand Avars Avinj AT ATnd Alive Alognd Alog AD Acs].
   constructor; simpl_st; try assumption.
   - destruct Aheap. constructor; simpl_st; assumption.
   - intros e o sl Hin. destruct (Amem1 e o sl Hin) as [H1 H2]. split; [|exact H2].
@@ -230,6 +234,9 @@ Proof.
   - intros e o sl Ha He Hh. apply Amem2; try assumption. rewrite <- Hhome; [exact Hh|]. intros ->. contradiction.
   - intros e He. destruct (Afresh e He) as (A1 & A2 & A3 & A4). repeat split; try tauto.
     rewrite upd_other by lia. exact A3.
+  - intros d st Ha Ht Hw. unfold upd. destruct (Nat.eqb_spec (ocur s d) h) as [E|E].
+    + intros Hv. now apply (Hcs d st).
+    + now apply Acs.
 Qed.
 
 (* ---- an exempt entry whose pointer field is empty is in shape again *)
@@ -241,7 +248,7 @@ Lemma inv_drop_X X W D T G s e :
 Proof.
   intros Hi Hnx Hh Hv.
   destruct Hi as [Aheap Amem1 Amem2 Aown Afresh Atag Adead Ainner Aitag Ainj Aiown Agin Apres Adev Abuf Acur Acurinj
-                  Ahand Avars Avinj AT ATnd Alive Alognd Alog AD].
+                  Ahand Avars Avinj AT ATnd Alive Alognd Alog AD Acs].
   constructor; try assumption.
   - intros x o sl Hin. destruct (Amem1 x o sl Hin) as [H1 H2]. split; [exact H1|]. intros H. apply H2. now right.
   - intros x o sl Ha Hx Hhx. apply Amem2; try assumption. intros [<-|H]; [|contradiction].
